@@ -227,6 +227,37 @@ CHECKS["C06"] = dict(
     technique="Coq proof (reachable-state invariant pinv + per-scope product relations) + trace-acceptance correspondence + source-generated graph facts",
     design="DESIGN.md section 6 C06, section 13")
 
+CHECKS["C04"] = dict(
+    engine="coq-engine",
+    text="Coq theorems c04_final_consistent / c04_final_released: for EVERY plan shape and every trace the observable engine automaton "
+         "accepts, the monitor mon_final_core holds at and after the return of Wait: plan Completed or Failed, nothing Running, no plugin "
+         "still executing, nothing changes afterwards, the status-consistency rules of the property, every action's status and attempt "
+         "count equal what the trace shows ran, and the reason is the first stage (pre, cont, block, post, deferred) whose failure the "
+         "trace shows, unset exactly when Completed; image_invariant and final_sound are stated on their own. Every real run must be "
+         "accepted by the automaton and satisfy mon_final (incl. the time flags start<=end, observed on the implementation); a hang "
+         "violates the release obligation; Final.v is tied to the real finalStates by direct function equality on generated status "
+         "combinations through the verifhooks hook (all 7 776 plan-group combinations in the thorough tier).",
+    note=ENGINE_NOTE + "start<=end / end-time-set flags are evaluated on real traces only (the automaton carries no clock; wall-clock "
+         "monotonicity is not covered); a block's own verdict is C03, retry budgets C05",
+    technique="Coq proof (product invariant automaton x monitor, phase windows, late-list accounting) + trace-acceptance correspondence + direct function equality for finalStates",
+    design="DESIGN.md section 6 C04, section 13")
+CHECKS["C07"] = dict(
+    engine="coq-engine",
+    text="Coq theorems c07_cont_deferred (all 15 clauses of the per-scope monitor mon_cont_deferred for EVERY shape, trace and interleaving "
+         "of the observable automaton: no continuous run begins after a failed one; a failed continuous or deferred run means the scope and "
+         "the group are shown Failed, with reason ContCheck / DeferredCheck at plan level unless an earlier stage failed; a deferred run "
+         "begins only in an entered scope, only once, and nothing else of the scope runs after it began), c07_deferred_exactly_once at "
+         "release (entered scope: exactly one deferred run; bypassed or unstarted: none), c07_thread_alive_* (safety half of 'keeps being "
+         "re-run'), and the result-channel mechanism theorems (no_failure_lost, conservation, at most one failed verdict, drain progress) "
+         "on the detailed ContChan model. Correspondence: profiles cont (failure at the k-th run, k = 1..6, placed around sequence "
+         "boundaries and the drain window), final, tol, mixed with forced deferred groups; acceptance + monitor by vm_compute; the check "
+         "also requires that re-runs are actually observed; statement-shape tie of runContChecks/BlockEnd/PlanPostChecks/"
+         "PlanDeferredChecks and the source-regenerated graph facts re-proved on every run.",
+    note=ENGINE_NOTE + "the liveness half of 'keeps being re-run' is measured on the implementation (a third run of a continuous group must be "
+         "observed), not proved; the rate of re-runs is not a property",
+    technique="Coq proof (per-scope product invariant over reachable-state invariants; channel-protocol invariants) + trace-acceptance correspondence + source ties",
+    design="DESIGN.md section 6 C07, section 13")
+
 PENDING_REASON = "check under construction in this session (see DESIGN.md section 12 build order); not yet claimed"
 
 
